@@ -479,8 +479,8 @@ func (e *c19Env) blipPull(since string) {
 	}
 	e.bt.addCollectionProperty(sub)
 	e.bt.Send(sub)
-	c19Wait(&changesDone, 30*time.Second)
-	c19Wait(&revsDone, 30*time.Second)
+	c19Wait(&changesDone, 120*time.Second)
+	c19Wait(&revsDone, 120*time.Second)
 }
 
 func c19Wait(wg *sync.WaitGroup, d time.Duration) bool {
